@@ -603,6 +603,10 @@ func ToPatch(d PatchDesc) (patch.Patch, error) {
 		pb, _ := json.Marshal(ptr)
 		vb, _ := json.Marshal(d.Mark)
 
+		if len(d.IDs) > 1 { // the value as JSON text (not a string)
+			vb = []byte(d.IDs[1])
+		}
+
 		return patch.NewJSONPatch(fmt.Sprintf(`[{"op":"add","path":%s,"value":%s}]`, pb, vb))
 	case AddTags:
 		vb, _ := json.Marshal(d.IDs)
@@ -725,8 +729,15 @@ func OpaqueDoc(keyIDs, svcIDs, uris []string, note, mark string) (string, []Patc
 			name, val := note[:i], note[i+1:]
 			nb, _ := json.Marshal(name)
 			vb, _ := json.Marshal(val)
+
+			if strings.HasPrefix(val, "\x00") { // "name\x00\x00json": the value is JSON text, e.g. an empty list
+				vb = []byte(val[1:])
+				descs = append(descs, PatchDesc{Kind: AddMember, IDs: []string{name, val[1:]}})
+			} else {
+				descs = append(descs, PatchDesc{Kind: AddMember, IDs: []string{name}, Mark: val})
+			}
+
 			parts = append(parts, string(nb)+":"+string(vb))
-			descs = append(descs, PatchDesc{Kind: AddMember, IDs: []string{name}, Mark: val})
 		} else {
 			parts = append(parts, fmt.Sprintf(`"note":%q`, note))
 			descs = append(descs, PatchDesc{Kind: AddNote, Mark: note})
